@@ -88,6 +88,9 @@ def conformance(tier):
             ['V=' + pshell.quote(s) + ' prog' for s in raw] + \
             ['export V=' + pshell.quote(s) + ' && prog x' for s in raw] + \
             [s + ' x' for s in cf.strings(ALPHA, 2, 1)]
+    ws = list(cf.strings('V=:~a', 4, 1))
+    lines += ['prog ' + w for w in ws] + [w + ' prog' for w in ws] + \
+             ['export ' + w + ' && prog' for w in ws]
     a, u, bad = cf.check_rsh(lines)
     res.append(('rsh vs /bin/sh', a, u, bad))
     a, u, bad = cf.check_rmake_assign(raw, vars=((',', ','),), prelude=', := ,\n')
